@@ -232,16 +232,17 @@ where
         vec![]
     };
 
+    // The `zeta_next` opening of the trace is present only when the AIR accesses the next row
+    // (the native prover omits it otherwise).
+    let mut trace_points = vec![(zeta, opened_trace_local_targets.clone())];
+    if air.opens_trace_next() {
+        trace_points.push((zeta_next, opened_trace_next_targets.clone()));
+    }
+
     coms_to_verify.extend([
         (
             trace_targets.clone(),
-            vec![(
-                trace_domain,
-                vec![
-                    (zeta, opened_trace_local_targets.clone()),
-                    (zeta_next, opened_trace_next_targets.clone()),
-                ],
-            )],
+            vec![(trace_domain, trace_points)],
         ),
         (
             quotient_chunks_targets.clone(),
@@ -495,10 +496,13 @@ where
         ..
     } = opened_values;
 
-    if opened_trace_local.len() != air_width || opened_trace_next.len() != air_width {
+    // The next-row opening is absent for AIRs that do not access the next row.
+    let expected_next_len = if air.opens_trace_next() { air_width } else { 0 };
+    if opened_trace_local.len() != air_width || opened_trace_next.len() != expected_next_len {
         return Err(VerificationError::InvalidProofShape(format!(
-            "Expected opened_trace_local and opened_trace_next to have length {}, got {} and {}",
+            "Expected opened_trace_local and opened_trace_next to have length {} and {}, got {} and {}",
             air_width,
+            expected_next_len,
             opened_trace_local.len(),
             opened_trace_next.len()
         )));
